@@ -153,7 +153,13 @@ class OriginDomain:
             try: return recv.items[idx[0].value]
             except IndexError: pass
         if isinstance(recv, Const) and isinstance(recv.value, dict) and isinstance(idx[0], Const):
-            return recv.value.get(idx[0].value, Unknown())
+            return recv.value.get(idx[0].value, recv.value.get("*", Unknown()))
+        if isinstance(recv, Const) and isinstance(recv.value, dict) and recv.value:
+            # computed key: any of the stored values (they are references, not copies)
+            orgs = set()
+            for v in recv.value.values():
+                orgs |= set(org_of(v))
+            return O(orgs)
         # boolean / fancy index by a mask value -> copy
         if any(isinstance(i, O) and i.mask for i in idx): return FRESH
         if any(isinstance(i, Seq) for i in idx): return FRESH           # list/tuple of indices -> fancy
@@ -161,6 +167,11 @@ class OriginDomain:
     def store_sub(self, recv, idx_node, idx, val, node, aug=None):
         if isinstance(recv, Const) and isinstance(recv.value, dict) and isinstance(idx[0], Const):
             d = dict(recv.value); d[idx[0].value] = val
+            return Const(d)
+        if isinstance(recv, Const) and isinstance(recv.value, dict) and aug is None:
+            # store under a computed key into a dict literal built here: remember the value under the wildcard entry
+            d = dict(recv.value)
+            d["*"] = O(set(org_of(d["*"])) | set(org_of(val))) if "*" in d else val
             return Const(d)
         self.sink(recv, node, "subscript store")
         return recv
